@@ -210,6 +210,39 @@ def run(ctx):
         s["offers"] = [[o["what"], o["api"], o["res"]] for o in t["offers"]][:6]
         s["tlc_verdict"] = verdicts[t["tid"]][1]
         ctx.sample(s)
+    # 5b. the repository's own tests as records: the library's runner (Crypto.SelfTest.Hash, known-answer tests built from the vector
+    #     files included) runs under recording proxies around every hash / XOF / keyed-BLAKE2 object; every digest any existing test
+    #     computes is judged against the transcribed standard (DESIGN.md section 9, item 5)
+    sres = ctx.drive("suite_run", ["--plugin=suite_hash_plugin", "--native=Hash" if quick else "--native=Hash,Protocol.test_KDF,Signature.test_pss,Signature.test_pkcs1_15"], timeout=3000)
+    srecs = sres["traces"]
+    ctx.extra["repo_tests_under_hash_tracing"] = sres["pytest_summary"]
+    if len(srecs) < 1000:
+        raise Machinery("the repository's hash tests produced only %d records under tracing (%s)" % (len(srecs), sres["pytest_summary"]))
+    rs = random.Random(ctx.seed + 17)
+    if quick:          # a seed-dependent sample, stratified by algorithm
+        bya = {}
+        for t in srecs:
+            bya.setdefault(t["alg"], []).append(t)
+        srecs = []
+        for a in sorted(bya):
+            rs.shuffle(bya[a])
+            srecs += bya[a][:90]
+    tid0 = max(t["tid"] for t in records) + 1
+    for i, t in enumerate(srecs):
+        t["tid"] = tid0 + i
+    sverd = ctx.validate("HashValueTrace", balance(srecs), family="hash-values (repository tests)", timeout=3000)
+    sper = {}
+    for t in srecs:
+        ctx.count()
+        ctx.nontriv(["repo-test", t["alg"], t["n"], t["key"], t["msg"]])
+        sper[t["alg"]] = sper.get(t["alg"], 0) + 1
+        pos, clause = sverd[t["tid"]]
+        if clause != "ok":
+            d = describe(t)
+            d["returned"] = bytes(t["out"]).hex()
+            d["msg"] = bytes(t["msg"]).hex()
+            ctx.violation("%s: %s (computed inside the repository's own tests)" % (algname(t), clause), d, replay=t)
+    ctx.extra["records_from_repo_tests_per_algorithm"] = sper
     ctx.extra["records_per_algorithm"] = per_alg
     ctx.extra["tags_offered_to_verify"] = offers_total
     ctx.extra["tags_accepted_by_impl"] = accepted
